@@ -38,6 +38,9 @@ import (
 //	inflight2 <va> <vb> <K> | ok o1=<A|P|D> o2=<A|P|D> d1=<0|1>
 //	     two different senders negotiating version va and vb: the first one's OFFER [K] is accepted, it opens the uTP stream and
 //	     stalls; the second one offers the same K before delivery (A accepted, P inbound transfer in progress, D declined)
+//	inflightrl <va> <K> | ok o1=<A|P|D> o2=<A|P|D> o3=<A|P|D> d1=<0|1>
+//	     receiver with 2 inbound slots, one held by the harness: sender A (version va) offers [K], accepted, stream open and
+//	     stalled; a version-0 peer offers [K] while NO slot is free; the harness frees its slot; a version-1 peer offers [K]
 //	race <n> | ok second=<codes>        two back-to-back version-1 offers of the same fresh keys, codes of the second reply
 func init() { registry["C09"] = runC09 }
 
@@ -808,6 +811,81 @@ func c09inflight2(c *Ctx, va, vb int, K []byte) {
 	c.Emit("%s | ok o1=%s o2=%s d1=%d", head, o1, o2, d1)
 }
 
+// c09inflightRL: a rate-limited offer must not touch the in-flight marks of other pending transfers.
+func c09inflightRL(c *Ctx, va int, K []byte) {
+	R := c09nodeFor(c, []byte{0, 1}, 2, 8, [][]byte{K}, "1")
+	defer R.n.Stop()
+	A := c09newNode(c, []byte{byte(va)}, 50, 8, 255)
+	defer A.n.Stop()
+	B := c09newNode(c, []byte{0}, 50, 8, 255)
+	defer B.n.Stop()
+	C := c09newNode(c, []byte{1}, 50, 8, 255)
+	defer C.n.Stop()
+	head := fmt.Sprintf("inflightrl %d %s", va, hx(K))
+	c.Count(fmt.Sprintf("inflightrl_%d", va))
+	if A.n.Ping(R.n.Self()) != nil || B.n.Ping(R.n.Self()) != nil || C.n.Ping(R.n.Self()) != nil {
+		c.Emit("%s | err 9", head)
+		return
+	}
+	heldPermit, ok := R.n.InboundPermit()
+	if !ok {
+		c.Emit("%s | err 8", head)
+		return
+	}
+	freed := false
+	defer func() {
+		if !freed {
+			heldPermit.Release()
+		}
+	}()
+	ctx, cancel := context.WithTimeout(context.Background(), 20*time.Second)
+	defer cancel()
+	payload := portalwire.VerifEncodeContents([][]byte{{7, 7, 7}})
+	b1, id1, ok1 := c09talkOffer(A, R, [][]byte{K})
+	if !ok1 {
+		c.Emit("%s | err 1", head)
+		return
+	}
+	o1 := c09verdict1(va, b1)
+	if o1 != "A" || id1 == 0 {
+		c.Emit("%s | ok o1=%s o2=? o3=? d1=0", head, o1)
+		return
+	}
+	conn1, err := A.n.P.Utp.DialWithCid(ctx, R.n.Self(), id1)
+	if err != nil {
+		c.Emit("%s | err 2", head)
+		return
+	}
+	time.Sleep(300 * time.Millisecond) // K is marked, both slots are taken
+	b2, _, ok2 := c09talkOffer(B, R, [][]byte{K})
+	o2 := "?"
+	if ok2 {
+		o2 = c09verdict1(0, b2)
+	}
+	heldPermit.Release() // a slot frees
+	freed = true
+	b3, id3, ok3 := c09talkOffer(C, R, [][]byte{K})
+	o3 := "?"
+	if ok3 {
+		o3 = c09verdict1(1, b3)
+	}
+	conn1.Write(ctx, payload)
+	conn1.Close()
+	d1 := 0
+	select {
+	case <-R.q:
+		d1 = 1
+	case <-time.After(8 * time.Second):
+	}
+	if o3 == "A" && id3 != 0 {
+		if cn, err := C.n.P.Utp.DialWithCid(ctx, R.n.Self(), id3); err == nil {
+			cn.Write(ctx, payload)
+			cn.Close()
+		}
+	}
+	c.Emit("%s | ok o1=%s o2=%s o3=%s d1=%d", head, o1, o2, o3, d1)
+}
+
 // c09race: two version-1 offers of the same fresh in-range keys, back to back from one goroutine.
 func c09race(c *Ctx, key *ecdsa.PrivateKey, n int) {
 	R := c09newNode(c, []byte{0, 1}, 50, 8, 255)
@@ -873,6 +951,8 @@ func c09replay(c *Ctx, lines []string) {
 			c09inflight3(c, unhx(f[1]), unhx(f[2]))
 		case "inflight2":
 			c09inflight2(c, atoi(f[1]), atoi(f[2]), unhx(f[3]))
+		case "inflightrl":
+			c09inflightRL(c, atoi(f[1]), unhx(f[2]))
 		case "race":
 			c09race(c, key, atoi(f[1]))
 		}
@@ -1104,6 +1184,9 @@ func runC09(c *Ctx) {
 	}
 	for _, vv := range [][2]int{{0, 1}, {0, 0}, {1, 0}, {1, 1}} {
 		c09inflight2(c, vv[0], vv[1], append([]byte{0x63}, rg.Bytes(7)...))
+	}
+	for va := 0; va <= 1; va++ {
+		c09inflightRL(c, va, append([]byte{0x64}, rg.Bytes(7)...))
 	}
 	nin := 2
 	if c.Tier == "thorough" {
